@@ -137,6 +137,15 @@ def check_property_file(pid):
             "closed_count": closed, "checker_cmd": "cd coq && " + " && ".join(cmds), "log": "\n".join(logs)}
 
 
+def run_coqchk(files):
+    """independent re-check of the compiled property files and everything they depend on (thorough tier)"""
+    mods = ["AC.Properties." + f[:-2] for f in files]
+    rc, out = sh("timeout 5000 coqchk -silent -o -Q theories AC %s 2>&1" % " ".join(mods), cwd=COQDIR, timeout=5100)
+    m = re.search(r"\* Axioms:(.*?)\n\s*\n\* Constants", out, re.S)
+    axioms = [x.strip() for x in (m.group(1).split("\n") if m else []) if x.strip() and x.strip() != "<none>"]
+    return {"ok": rc == 0, "modules": mods, "axioms_of_all_loaded_libraries": axioms[:200], "log": out[-1500:] if rc else ""}
+
+
 def load_known():
     p = os.path.join(VERIF, "known_findings.txt")
     res = []
@@ -198,6 +207,11 @@ def main():
     if not b["driver_ok"]:
         broken.append("extracted driver does not build")
 
+    chk = None
+    if a.tier == "thorough" and pf.get("exists") and pf.get("ok"):
+        chk = run_coqchk(pf["files"])
+        if not chk["ok"]:
+            broken.append("coqchk rejects the compiled property files: " + chk["log"][-200:])
     ctx = {"tier": a.tier, "seed": common.SEED, "broken": list(broken), "driver_ok": b["driver_ok"]}
     # correspondence suites
     suites = []
@@ -264,6 +278,7 @@ def main():
         "rule": mod.RULE if hasattr(mod, "RULE") else "",
         "samples": (mon.get("samples", []) + [x for s in suites for x in s.get("samples", [])])[:6] or ["(none)"],
         "no_longer_checks": broken,
+        "coqchk": chk,
         "known_findings_reproduced": [k for k in reproduced],
         "build": {k: v for k, v in b.items() if k != "log"},
     }
